@@ -11,3 +11,28 @@ package autofile
 //@   requires af != nil
 //@   modifies *
 //@   atcall OpenFile requires [appendMode] (flag & 1024) == 1024 && (flag & 512) == 0
+
+// readGroupInfo lists the directory and parses the file names (OS calls, regular expression: outside
+// the subset). It starts from -1/-1, takes min and max over the rotated files and then accounts for the
+// head (0,0 if there are none, max+1 otherwise): trusted.
+//@ trusted func (g *Group) readGroupInfo() (r GroupInfo)
+//@   modifies nothing
+//@   ensures 0 <= r.MinIndex && r.MinIndex <= r.MaxIndex && r.MaxIndex <= 2147483647
+
+// A reopened group continues with the index range found in its directory: the next rotation renames the
+// head to maxIndex (a too-small maxIndex would overwrite an existing file), readers walk minIndex..maxIndex.
+//@ func OpenGroup(headPath string, groupOptions ...func(*Group)) (r *Group, err error)
+//@   for C15
+//@   modifies *
+//@   ensures [indexRangeFromTheDirectory] err == nil ==> r != nil && r.minIndex == result(Group.readGroupInfo).MinIndex && r.maxIndex == result(Group.readGroupInfo).MaxIndex
+
+// Pruning for the total size limit removes rotated files only, oldest first: never the head (index
+// maxIndex), whose unflushed and synced contents are the newest part of the log.
+//@ func (g *Group) checkTotalSizeLimit()
+//@   for C15
+//@   requires g != nil && g.Head != nil && g.Logger != nil
+//@   modifies *
+//@   atcall Remove requires [neverTheHeadFile] gInfo.MinIndex <= index && index < gInfo.MaxIndex && name == pathToRemove
+//@   atcall filePathForIndex requires [pathOfARotatedFile] index < maxIndex && maxIndex == gInfo.MaxIndex
+//@   loop 1:
+//@     invariant 0 <= i && gInfo.MinIndex + i <= gInfo.MaxIndex && 0 <= gInfo.MinIndex
